@@ -170,7 +170,9 @@ def has_surrogate(text):
 def gen_template(rng, idx):
     """A small template as a list of lines, each a list of tokens.  Every
     template has at least one `<--` so that there are findings."""
-    lines = [["pragma", "circom", "2.0.0", ";"]]
+    # `pragma circom` is ONE token of the grammar (literal with a single blank, as in
+    # Circom's own grammar): a comment inside it is a comment inside a token
+    lines = [["pragma circom", "2.0.0", ";"]]
     with_fn = rng.random() < 0.3
     if with_fn:
         lines += [["function", "f", "(", "m", ")", "{"], ["var", "y", "=", "m", "*", "2", ";"],
@@ -466,6 +468,19 @@ def run(ctx, proofs):
         elif ia[3:] != l:
             rnd_nontrivial.add(l)
     failing += pyfail
+    # blank_invariant on the real function: the file with its comments blanked
+    # out (computed by the reference side) gives the same parser input
+    rb = common.run_lines(model, ["blank"], lines, shards=common.NPROC)
+    blines = [split_res(b)[1][3:] for b in rb]
+    rib = common.run_lines(harness, [], blines, shards=common.NPROC)
+    blank_checked = 0
+    for t, l, a, bl, ab in zip(texts, lines, ri, blines, rib):
+        ia, iab = split_res(a)[1], split_res(ab)[1]
+        if bl != l:
+            blank_checked += 1
+        if ia != iab and len(failing) < 40:
+            failing.append({"case": l, "impl": "on the text with comments blanked (%s): %s" % (bl, iab),
+                            "spec": "same as on the text itself: " + ia, "text": t})
 
     # end to end
     n_e2e = 100 if quick else 400
@@ -510,7 +525,7 @@ def run(ctx, proofs):
         "exhaustive": True,
         "exhaustive_part": "all %d strings of length <= %d over 6 symbols; %d of them contain a comment, %d end inside a block comment"
                            % (ev_sweep, maxlen, nontrivial_sweep, errs_sweep),
-        "random_texts": len(lines), "random_nontrivial": len(rnd_nontrivial), "random_unclosed": rnd_err,
+        "random_texts": len(lines), "blank_invariant_checked_on": blank_checked, "random_nontrivial": len(rnd_nontrivial), "random_unclosed": rnd_err,
         "corpus_cases": len(clines),
         "samples": (disagreements[:1] + failing[:1]) or [ri[1], ri[len(ri) // 2], ri[-1]],
         "disagreements_model_vs_impl": len(disagreements),
@@ -540,7 +555,15 @@ def replay(ctx, rep):
         print("text          :", repr(text_of(rep["input"])))
         print("implementation:", out[0])
         print("specification :", spec[0])
-        return 0 if out[0] == spec[0] else 1
+        res = split_res(out[0])[1]
+        why = py_checks(text_of(rep["input"]), res)
+        if why:
+            print("position clause:", why)
+        bl = split_res(common.run_lines(model, ["blank"], [rep["input"]])[0])[1][3:]
+        outb = common.run_lines(harness, [], [bl])
+        print("with comments blanked:", outb[0])
+        same_blank = split_res(outb[0])[1] == res
+        return 0 if out[0] == spec[0] and not why and same_blank else 1
     if rep.get("e2e"):
         cli = common.build_cli()
         p = rep["e2e"]
